@@ -1,6 +1,7 @@
 package props
 
 import (
+	"context"
 	"encoding/json"
 	"fmt"
 	"reflect"
@@ -463,17 +464,130 @@ func c10Oracle(c *IntroCase) (msg string) {
 			}
 		}
 	}
+	// probe fields on the query root, one per abstract type: `zz<A>: [A]`, so that values of every possible type of A
+	// can be asked for their __typename, before and after types are appended
+	omit := append(append([]string{}, c.Append...), c.Omit...)
+	full = withTypenameProbes(full, omit)
+	initial = *withTypenameProbes(&initial, omit)
+	c10TypeLookup = full
 	// the library-side types are built from the full model so that appended types exist
-	b, err := build.New(full, &ref.World{S: full}, build.Options{Omit: append(append([]string{}, c.Append...), c.Omit...)})
+	b, err := build.New(full, &ref.World{S: full}, build.Options{Omit: omit})
 	if err != nil {
 		return "HARNESS: schema rejected: " + err.Error()
+	}
+	// what the schema is before anything is appended: the model without the omitted types
+	before := initial
+	before.Types = nil
+	for _, td := range initial.Types {
+		if !contains(omit, td.Name) {
+			before.Types = append(before.Types, td)
+		}
+	}
+	tn := newTypenameProbe(b, &before)
+	if m := tn.run(&before, "before any type was appended"); m != "" {
+		return m
 	}
 	for _, a := range c.Append {
 		if err := b.Schema.AppendType(b.Types[a]); err != nil {
 			return fmt.Sprintf("AppendType(%s) failed on a valid type: %v", a, err)
 		}
 	}
+	if len(c.Append) > 0 {
+		if m := tn.run(full, fmt.Sprintf("after AppendType of %v (the plan and the cache entry were made before)", c.Append)); m != "" {
+			return m
+		}
+	}
 	return c10Introspect(b, full)
+}
+
+func contains(xs []string, x string) bool {
+	for _, y := range xs {
+		if y == x {
+			return true
+		}
+	}
+	return false
+}
+
+// withTypenameProbes returns a copy of the model whose query root has a field zz<A>: [A] for every abstract type A.
+func withTypenameProbes(s *model.Schema, omit []string) *model.Schema {
+	cp := *s
+	cp.Types = append([]*model.TypeDef{}, s.Types...)
+	for i, td := range cp.Types {
+		if td.Name != s.Query {
+			continue
+		}
+		q := *td
+		q.Fields = append([]*model.FieldDef{}, td.Fields...)
+		for _, a := range s.Types {
+			if (a.Kind == model.KIface || a.Kind == model.KUnion) && !contains(omit, a.Name) {
+				q.Fields = append(q.Fields, &model.FieldDef{Name: "zz" + a.Name, Type: model.TypeRef{Name: a.Name, Wrap: "["}})
+			}
+		}
+		cp.Types[i] = &q
+	}
+	return &cp
+}
+
+// typenameProbe asks every abstract probe field for the __typename of its values through Do, a plan prepared once and
+// a plan-cache entry made once, against the reference interpreter over the model of the schema as it is at that moment.
+type typenameProbe struct {
+	b     *build.Built
+	doc   *model.Doc
+	text  string
+	plan  *graphql.Plan
+	cache *graphql.PlanCache
+}
+
+func newTypenameProbe(b *build.Built, m *model.Schema) *typenameProbe {
+	p := &typenameProbe{b: b, cache: graphql.NewPlanCache(graphql.PlanCacheOptions{})}
+	var sel []*model.Sel
+	for _, td := range m.Types {
+		if (td.Kind == model.KIface || td.Kind == model.KUnion) && len(m.PossibleTypes(td.Name)) > 0 {
+			sel = append(sel, &model.Sel{K: "field", Name: "zz" + td.Name, Sel: []*model.Sel{{K: "field", Name: "__typename"}}})
+		}
+	}
+	if len(sel) == 0 {
+		return p
+	}
+	p.doc = &model.Doc{Defs: []*model.Def{{Kind: "query", Sel: sel}}}
+	p.text = model.Print(p.doc, nil).Text
+	return p
+}
+
+func (p *typenameProbe) run(m *model.Schema, when string) string {
+	if p.doc == nil {
+		return ""
+	}
+	w := &ref.World{S: m, Salt: 5, MaxList: 6}
+	want := ref.Execute(m, p.doc, "", nil, w)
+	ctx := func() context.Context { return build.WithSession(context.Background(), &build.Session{W: w}) }
+	check := func(how string, res *graphql.Result) string {
+		if d := compareExec(want, res); d != "" {
+			return fmt.Sprintf("__typename %s, %s: %s\n  request: %s", when, how, d, p.text)
+		}
+		return ""
+	}
+	if m := check("through Do", graphql.Do(graphql.Params{Schema: p.b.Schema, RequestString: p.text, Context: ctx()})); m != "" {
+		return m
+	}
+	if p.plan == nil {
+		doc, err := parseText(p.text)
+		if err != nil {
+			return "HARNESS: " + err.Error()
+		}
+		if p.plan, err = graphql.PlanQuery(&p.b.Schema, doc, ""); err != nil {
+			return "HARNESS: PlanQuery: " + err.Error()
+		}
+	}
+	if m := check("through the prepared plan", graphql.ExecutePlan(p.plan, graphql.ExecuteParams{Schema: p.b.Schema, Context: ctx()})); m != "" {
+		return m
+	}
+	pr := p.cache.Get(&p.b.Schema, p.text, "")
+	if pr.Plan == nil {
+		return fmt.Sprintf("__typename %s: the plan cache rejects the request: %v", when, pr.Errors)
+	}
+	return check("through the plan cache", graphql.ExecutePlan(pr.Plan, graphql.ExecuteParams{Schema: p.b.Schema, Context: ctx()}))
 }
 
 // c10Introspect runs the introspection queries against b and compares with the model full.
